@@ -682,7 +682,10 @@ func c12Transfers(e *c12Env, r *rand.Rand, w *CaseWriter) {
 		var g *c12Grant
 		gkind := "none"
 		if src.name != "self" || r.Intn(4) == 0 {
-			other := te.denoms[(te.denomID(denom))%len(te.denoms)]
+			other := te.denoms[r.Intn(len(te.denoms))]
+			if other == denom {
+				other = te.denoms[(te.denomID(denom))%len(te.denoms)]
+			}
 			pos := amt
 			if pos <= 0 {
 				pos = 1
